@@ -33,6 +33,7 @@ func allProps() []*PropSpec {
 	return []*PropSpec{
 		propC08(),
 		propC07(),
+		propC06(),
 	}
 }
 
@@ -87,7 +88,39 @@ func propC07() *PropSpec {
 			}
 			js = append(js, jobsN("json", "VerifJSONValue", pick(rng(1, 5), rng(1, 6)), "all RFC 8259 texts of n bytes, KeepNumbers symbolic")...)
 			js = append(js, jobsN("json", "VerifJSONTemplate", pick(rng(1, 4), rng(1, 5)), "value hole of n bytes inside 7 document skeletons")...)
+			js = append(js, jobsN("json", "VerifJSONHugeExp", pick([]int{1}, []int{1, 2}), "numbers with 18-20 digit exponents around MinInt/MaxInt inside a document")...)
 			js = append(js, Job{Pkg: "json", Fn: "VerifJSONTwin", N: 3, ExpectFail: true, Desc: "vacuity twin"})
+			return js
+		},
+	}
+}
+
+func propC06() *PropSpec {
+	return &PropSpec{
+		ID:   "C06",
+		Rule: "one case = one feasible path of xml.Minify (real parse/v2/xml lexer, TokenBuffer, entity/escape helpers) + reference XML reader on input and output, over ALL hole contents of the stated length/alphabet; non-trivial = completes with a distinct symbolic output",
+		Assumptions: []string{"input is well-formed per the harness's reference reader (ASCII names, predefined + numeric references, no internal DTD subset)", "hole bytes range over the alphabet stated in the harness", "whitespace-only text runs carry no demand (they may vanish, also with KeepWhitespace)", "KeepWhitespace clause applies at element-tag boundaries, not at PI/DOCTYPE boundaries"},
+		Outside:     []string{"documents larger than the templates/raw bound", "internal DTD subsets", "non-ASCII names", "bytes outside the hole alphabets"},
+		Stubs:       []string{"parse.NewError/NewErrorLexer return an opaque non-nil error"},
+		Jobs: func(tier string) []Job {
+			var js []Job
+			q := tier == "quick"
+			pick := func(a, b []int) []int {
+				if q {
+					return a
+				}
+				return b
+			}
+			js = append(js, jobsN("xml", "VerifXMLRaw", pick(rng(4, 6), rng(4, 8)), "all documents of n bytes over a 19-character markup alphabet")...)
+			js = append(js, jobsN("xml", "VerifXMLText", pick(rng(0, 3), rng(0, 4)), "<a>H</a>, H = n bytes over text/reference/markup alphabet")...)
+			js = append(js, jobsN("xml", "VerifXMLMixed", pick(rng(1, 2), rng(1, 3)), "<a>H1<b>H2</b>H3</a>, holes up to n bytes")...)
+			js = append(js, jobsN("xml", "VerifXMLAttr", pick(rng(0, 4), rng(0, 5)), "<a b=QVQ/>, V = n bytes, both quote kinds")...)
+			js = append(js, jobsN("xml", "VerifXMLCDATA", pick(rng(0, 3), rng(0, 4)), "<a>H1<![CDATA[C]]>H2</a>, C = n bytes")...)
+			js = append(js, jobsN("xml", "VerifXMLBetween", pick(rng(1, 3), rng(1, 4)), "<a>H1 ITEM H2</a>, ITEM in comment/PI/empty element/empty CDATA")...)
+			js = append(js, jobsN("xml", "VerifXMLTextAny", pick(rng(1, 2), rng(1, 3)), "<r><x>H</x><y>1</y></r>, H = n arbitrary bytes (256 values)")...)
+			js = append(js, jobsN("xml", "VerifXMLAttrAny", pick(rng(1, 2), rng(1, 3)), "<a b=\"V\"/>, V = n arbitrary bytes (256 values)")...)
+			js = append(js, jobsN("xml", "VerifXMLProlog", pick(rng(0, 6), rng(0, 7)), "XML declaration/DOCTYPE/comment prolog + <a H>t</a>")...)
+			js = append(js, Job{Pkg: "xml", Fn: "VerifXMLTwin", N: 2, ExpectFail: true, Desc: "vacuity twin"})
 			return js
 		},
 	}
